@@ -394,7 +394,9 @@ Init == \E inj \in InjPlans :
 RunStep == Running(s) /\ \E enforce \in BOOLEAN : s' = Step(s, enforce)
 \* a crash injection planned for a flush point never fires (crashes happen at commits): prune
 NextRun == /\ ~Running(s) /\ Len(s.outs) < MaxRuns
-           /\ \E e \in 0..3 : /\ (e # 0 => s.edits = 0)
+           \* one edit, or an edit followed by its revert (registry history v1, v2, v1: an older current
+           \* node beside a newer stale one)
+           /\ \E e \in 0..3 : /\ (e # 0 => (s.edits = 0 \/ (s.edits = 1 /\ s.reg[e] = 2)))
                               /\ (Len(s.outs) >= 2 => e # 0)
                               /\ s' = StartRun(s, e)
 DoImport == /\ WithImport /\ ~Running(s) /\ Len(s.outs) = 1 /\ ~s.imported /\ s.outs[1][1] = "ok"
